@@ -11,6 +11,6 @@ perl -0pi -e "$expr" $d/$file
 if cmp -s $d/$file $d/$file.orig; then echo "EDIT DID NOT APPLY"; rm -rf $d; exit 2; fi
 rm $d/$file.orig
 (cd $d && go build ./... ) || { echo "$src: BUILD-FAILS"; rm -rf $d; exit 2; }
-out=$(${GENQLCHECK:-/verif/bin/genqlcheck} -repo $d -property all -no-evidence 2>&1 | grep -E '^(VIOLATED|UNDECIDED|CHECKER PANIC|ERROR)' | sort -u)
+out=$(timeout 600 ${GENQLCHECK:-/verif/bin/genqlcheck} -repo $d -property all -no-evidence 2>&1 | grep -E '^(VIOLATED|UNDECIDED|CHECKER PANIC|ERROR)' | sort -u)
 if [ -z "$out" ]; then echo "$src + edit: SILENT (BLIND!)"; else echo "$src + edit: FIRES"; echo "$out" | cut -c1-260 | head -5; fi
 rm -rf $d
